@@ -4,6 +4,7 @@ package c14
 
 import (
 	"bufio"
+	"os"
 	"encoding/base64"
 	"fmt"
 	"net"
@@ -24,17 +25,28 @@ type wire struct {
 	conn net.Conn
 	r    *bufio.Reader
 	log  []string
+	unix bool
 }
 
 // ioWatchdog only bounds a stuck socket; its expiry is inconclusive, never a verdict.
 const ioWatchdog = 60 * time.Second
 
+// dialWire connects to "tcpaddr|unixpath": TCP first, the unix socket when no
+// TCP connection can be made.
 func dialWire(addr string) (*wire, error) {
-	c, err := net.DialTimeout("tcp", addr, ioWatchdog)
+	tcp, unix, _ := strings.Cut(addr, "|")
+	var c net.Conn
+	var err error
+	if tcp != "" {
+		c, err = net.DialTimeout("tcp", tcp, ioWatchdog)
+	}
+	if c == nil {
+		c, err = net.DialTimeout("unix", unix, ioWatchdog)
+	}
 	if err != nil {
 		return nil, err
 	}
-	return &wire{conn: c, r: bufio.NewReader(c)}, nil
+	return &wire{conn: c, r: bufio.NewReader(c), unix: c.RemoteAddr().Network() == "unix"}, nil
 }
 
 func (w *wire) read() (int, string, error) {
@@ -91,27 +103,73 @@ func freePort() (int, error) {
 }
 
 func startSubmission(cfgText string) (*smtp.Endpoint, string, error) {
-	var lastErr error
-	for attempt := 0; attempt < 8; attempt++ {
+	// The endpoint listens on a loopback TCP port and on a unix socket.
+	// Ephemeral ports are a resource shared with every other check running on
+	// this machine: when none can be had (listening or dialing) the unix
+	// socket - same endpoint code - is used instead of giving up.
+	dir, err := os.MkdirTemp("", "sock")
+	if err != nil {
+		return nil, "", err
+	}
+	path := dir + "/s"
+	try := func(urls ...string) (*smtp.Endpoint, error) {
+		mod, err := smtp.New("submission", urls)
+		if err != nil {
+			return nil, err
+		}
+		if err := mx.InitModule(mod, cfgText, map[string]interface{}{}); err != nil {
+			return nil, err
+		}
+		return mod.(*smtp.Endpoint), nil
+	}
+	for attempt := 0; attempt < 3 && os.Getenv("VERIF_NO_TCP") == ""; attempt++ { // VERIF_NO_TCP: exercise the fallback
 		port, err := freePort()
 		if err != nil {
-			return nil, "", err
-		}
-		addr := fmt.Sprintf("127.0.0.1:%d", port)
-		mod, err := smtp.New("submission", []string{"tcp://" + addr})
-		if err != nil {
-			return nil, "", err
-		}
-		err = mx.InitModule(mod, cfgText, map[string]interface{}{})
-		if err == nil {
-			return mod.(*smtp.Endpoint), addr, nil
-		}
-		lastErr = err
-		if !strings.Contains(err.Error(), "address already in use") {
 			break
 		}
+		os.Remove(path)
+		addr := fmt.Sprintf("127.0.0.1:%d", port)
+		endp, err := try("tcp://"+addr, "unix://"+path)
+		if err == nil {
+			return endp, addr + "|" + path, nil
+		}
+		if !strings.Contains(err.Error(), "address already in use") {
+			return nil, "", err
+		}
 	}
-	return nil, "", lastErr
+	os.Remove(path)
+	endp, err := try("unix://" + path)
+	if err != nil {
+		return nil, "", err
+	}
+	return endp, "|" + path, nil
+}
+
+// closeEndpoint shuts the endpoint down. go-smtp's Server.Close only closes
+// listeners whose Serve loop has already registered itself, otherwise
+// Endpoint.Close waits forever (known mechanic, see HARNESS_GUIDE): a greeting
+// read from each listener proves its loop is accepting. The final watchdog only
+// protects the harness (a leaked endpoint is not a verdict).
+func closeEndpoint(endp *smtp.Endpoint, addr string) bool {
+	tcp, unix, _ := strings.Cut(addr, "|")
+	for _, a := range [][2]string{{"tcp", tcp}, {"unix", unix}} {
+		if a[1] == "" {
+			continue
+		}
+		if c, err := net.DialTimeout(a[0], a[1], 10*time.Second); err == nil {
+			c.SetReadDeadline(time.Now().Add(30 * time.Second))
+			bufio.NewReader(c).ReadString('\n')
+			c.Close()
+		}
+	}
+	done := make(chan struct{})
+	go func() { endp.Close(); close(done) }()
+	select {
+	case <-done:
+		return true
+	case <-time.After(60 * time.Second):
+		return false
+	}
 }
 
 // ---------------- group B ----------------
@@ -179,14 +237,10 @@ func runWire(t *testing.T, r *rep.Reporter, c *rep.Case, idx int) {
 	if err != nil {
 		t.Fatalf("harness: endpoint init: %v\n%s", err, cfg.String())
 	}
-	dialed := false
 	defer func() {
-		if !dialed { // Close hangs unless Serve has registered the listener
-			if cn, err := net.Dial("tcp", addr); err == nil {
-				cn.Close()
-			}
+		if !closeEndpoint(endp, addr) {
+			r.Count("endpoint_close_abandoned_by_watchdog", 1)
 		}
-		endp.Close()
 	}()
 
 	var transcripts [][]string
@@ -205,7 +259,9 @@ func runWire(t *testing.T, r *rep.Reporter, c *rep.Case, idx int) {
 			c.Inconclusive("dial: " + err.Error())
 			return
 		}
-		dialed = true
+		if w.unix {
+			r.Count("wire_connections_over_unix_socket_fallback", 1)
+		}
 		fail := func(err error) {
 			transcripts = append(transcripts, w.log)
 			w.conn.Close()
